@@ -738,5 +738,5 @@ func run(c Case, o *lib.Obs) error {
 }
 
 func TestC11(t *testing.T) {
-	lib.Check(t, spec, lib.Scale(20, 600), gen, run)
+	lib.Check(t, spec, lib.Scale(16, 600), gen, run)
 }
